@@ -203,35 +203,89 @@ func genMetricCase(t *rapid.T) MetricCase {
 	if rapid.IntRange(0, 9).Draw(t, "noscopes") == 0 {
 		scopes = nil
 	}
+	// 1 case in 6: one or two metrics the OTLP transform documents as errors
+	// (undefined temporality, nil or unknown aggregation) sit among the valid
+	// ones, at most one per scope.
+	invalid := 0
+	if rapid.IntRange(0, 5).Draw(t, "withinvalid") == 5 { // 5: shrinking moves away from this class
+		invalid = rapid.IntRange(1, 2).Draw(t, "ninvalid")
+	}
 	serial := 0
-	for _, sc := range scopes {
+	for si, sc := range scopes {
 		ms := MScope{Scope: sc}
 		nm := rapid.SampledFrom([]int{0, 1, 1, 2, 3, 4}).Draw(t, "nmetrics")
 		for i := 0; i < nm; i++ {
-			m := Metric{
-				Name:        fmt.Sprintf("m%d.%s", serial, rapid.SampledFrom([]string{"requests", "latency", "size", "ü"}).Draw(t, "mname")),
-				Desc:        genText(4).Draw(t, "mdesc"),
-				Unit:        rapid.SampledFrom([]string{"", "1", "ms", "By", "{request}"}).Draw(t, "munit"),
-				Agg:         rapid.SampledFrom([]string{"gauge", "sum", "hist", "exphist", "summary"}).Draw(t, "agg"),
-				Float:       rapid.Bool().Draw(t, "float"),
-				Temporality: rapid.IntRange(1, 2).Draw(t, "temporality"),
-				Monotonic:   rapid.Bool().Draw(t, "monotonic"),
-			}
-			if rapid.IntRange(0, 7).Draw(t, "sharedname") == 0 && serial > 0 {
-				// same suffix as others; the serial prefix keeps names unique
-				m.Name = fmt.Sprintf("m%d.requests", serial)
-			}
+			ms.Metrics = append(ms.Metrics, genMetric(t, serial, ""))
 			serial++
-			np := rapid.SampledFrom([]int{0, 1, 1, 2, 3}).Draw(t, "npoints")
-			for j := 0; j < np; j++ {
-				m.Points = append(m.Points, genPoint(t, m.Agg, j))
-			}
-			ms.Metrics = append(ms.Metrics, m)
+		}
+		// the last scopes take what is left of the budget
+		if invalid > 0 && (len(scopes)-si <= invalid || rapid.Bool().Draw(t, "invalidhere")) {
+			bad := genMetric(t, serial, rapid.SampledFrom([]string{"temporality0", "temporality0", "temporality3", "nil", "unknown"}).Draw(t, "invalidkind"))
+			serial++
+			at := rapid.IntRange(0, len(ms.Metrics)).Draw(t, "invalidpos")
+			ms.Metrics = append(ms.Metrics[:at], append([]Metric{bad}, ms.Metrics[at:]...)...)
+			invalid--
 		}
 		c.Scopes = append(c.Scopes, ms)
 	}
 	return c
 }
+
+// genMetric draws one metric; invalid != "" makes it untransformable.
+func genMetric(t *rapid.T, serial int, invalid string) Metric {
+	m := Metric{
+		Name:        fmt.Sprintf("m%d.%s", serial, rapid.SampledFrom([]string{"requests", "latency", "size", "ü"}).Draw(t, "mname")),
+		Desc:        genText(4).Draw(t, "mdesc"),
+		Unit:        rapid.SampledFrom([]string{"", "1", "ms", "By", "{request}"}).Draw(t, "munit"),
+		Agg:         rapid.SampledFrom([]string{"gauge", "sum", "hist", "exphist", "summary"}).Draw(t, "agg"),
+		Float:       rapid.Bool().Draw(t, "float"),
+		Temporality: rapid.IntRange(1, 2).Draw(t, "temporality"),
+		Monotonic:   rapid.Bool().Draw(t, "monotonic"),
+	}
+	if rapid.IntRange(0, 7).Draw(t, "sharedname") == 0 && serial > 0 {
+		// same suffix as others; the serial prefix keeps names unique
+		m.Name = fmt.Sprintf("m%d.requests", serial)
+	}
+	switch invalid {
+	case "temporality0", "temporality3":
+		m.Agg = rapid.SampledFrom([]string{"sum", "hist", "exphist"}).Draw(t, "invalidagg")
+		m.Temporality = map[string]int{"temporality0": 0, "temporality3": 3}[invalid]
+	case "nil", "unknown":
+		m.Agg = invalid
+	}
+	if m.Agg == "nil" {
+		return m
+	}
+	np := rapid.SampledFrom([]int{0, 1, 1, 2, 3}).Draw(t, "npoints")
+	pointAgg := m.Agg
+	if pointAgg == "unknown" {
+		pointAgg = "gauge"
+	}
+	for j := 0; j < np; j++ {
+		m.Points = append(m.Points, genPoint(t, pointAgg, j))
+	}
+	return m
+}
+
+// untransformable: the inputs for which the transform documents an error
+// (metricdata.go: "If ms contains invalid metric values, an error will be
+// returned along with a slice that contains partial OTLP Metrics";
+// Temporality: "If t is unknown, an error is returned"; metric(): unknown
+// aggregation). The exporters document "best effort upload of transformable
+// metrics".
+func (m Metric) untransformable() bool {
+	switch m.Agg {
+	case "nil", "unknown":
+		return true
+	case "sum", "hist", "exphist":
+		return m.Temporality != 1 && m.Temporality != 2
+	}
+	return false
+}
+
+// unknownAgg satisfies metricdata.Aggregation (through the embedded Gauge)
+// but is none of the types the transform knows.
+type unknownAgg struct{ metricdata.Gauge[int64] }
 
 func f64s(in []vk.F64) []float64 {
 	if in == nil {
@@ -260,10 +314,13 @@ func exemplarsOf[N int64 | float64](es []Exemplar, val func(Exemplar) N) []metri
 }
 
 func temporalityOf(n int) metricdata.Temporality {
-	if n == 2 {
+	switch n {
+	case 1:
+		return metricdata.CumulativeTemporality
+	case 2:
 		return metricdata.DeltaTemporality
 	}
-	return metricdata.CumulativeTemporality
+	return metricdata.Temporality(n) // undefined (0) or out of range
 }
 
 func buildAgg[N int64 | float64](m Metric, num func(i int64, f vk.F64) N) metricdata.Aggregation {
@@ -317,6 +374,12 @@ func buildAgg[N int64 | float64](m Metric, num func(i int64, f vk.F64) N) metric
 func (m Metric) build() metricdata.Metrics {
 	out := metricdata.Metrics{Name: m.Name, Description: m.Desc, Unit: m.Unit}
 	switch {
+	case m.Agg == "nil":
+		// Data stays nil
+	case m.Agg == "unknown":
+		g := m
+		g.Agg, g.Float = "gauge", false
+		out.Data = unknownAgg{g.build().Data.(metricdata.Gauge[int64])}
 	case m.Agg == "summary":
 		var dps []metricdata.SummaryDataPoint
 		for _, p := range m.Points {
@@ -496,6 +559,9 @@ func wantMetrics(c MetricCase, rm *metricdata.ResourceMetrics) []metricItem {
 		scope := renderScope(sm.Scope)
 		for mi, m := range sm.Metrics {
 			src := c.Scopes[si].Metrics[mi]
+			if src.untransformable() {
+				continue // must be absent from the payload (an unexpected item otherwise)
+			}
 			it := metricItem{item: item{key: m.Name}}
 			it.add("resource", res)
 			it.add("scope", scope)
@@ -745,10 +811,19 @@ func runMetrics(c MetricCase) ([]vk.Violation, vk.Info) {
 	var info vk.Info
 	rm := c.build()
 	want := wantMetrics(c, rm)
+	nInvalid := 0
+	for _, sc := range c.Scopes {
+		for _, m := range sc.Metrics {
+			if m.untransformable() {
+				nInvalid++
+			}
+		}
+	}
 
 	err := lab.use(func() {
 		ctx := context.Background()
 		var reqs [2]*colmetricpb.ExportMetricsServiceRequest
+		var sent [2]bool // Export ran and ended as expected
 		for ti, name := range []string{"grpc", "http"} {
 			// a fresh, equal input for each exporter: neither may depend on
 			// what the other did to its argument
@@ -769,10 +844,19 @@ func runMetrics(c MetricCase) ([]vk.Violation, vk.Info) {
 			if err == nil {
 				err = e.Export(ctx, in)
 			}
-			if err != nil {
+			switch {
+			case e == nil:
+				vs = append(vs, vk.V("metric_exporter_new", "%s exporter: %v", name, err))
+				continue
+			case err != nil && nInvalid == 0:
 				vs = append(vs, vk.V("metric_export_error", "%s Export: %v (collector: %v)", name, err, lab.httpErrs))
 				continue
+			case err == nil && nInvalid > 0:
+				// documented: the transform error is returned (after the
+				// best-effort upload of the transformable metrics)
+				vs = append(vs, vk.V("metric_"+name+"_invalid_not_reported", "%s Export returned nil for a batch with %d untransformable metrics", name, nInvalid))
 			}
+			sent[ti] = true
 			lab.capMu.Lock()
 			got := lab.metricH
 			if ti == 0 {
@@ -796,6 +880,8 @@ func runMetrics(c MetricCase) ([]vk.Violation, vk.Info) {
 				v.Observed, v.Expected = clip(fmt.Sprint(a)), clip(fmt.Sprint(b))
 				vs = append(vs, v)
 			}
+		} else if sent[0] && sent[1] && (reqs[0] == nil) != (reqs[1] == nil) {
+			vs = append(vs, vk.V("metric_grpc_http_differ", "for the same ResourceMetrics one exporter sent a request and the other none (grpc sent: %v, http sent: %v)", reqs[0] != nil, reqs[1] != nil))
 		}
 		info.ClassIf(lab.gzipSeen > 0, "http_gzip_body")
 	})
@@ -850,7 +936,10 @@ func runMetrics(c MetricCase) ([]vk.Violation, vk.Info) {
 			}
 		}
 	}
-	info.NonTrivial = len(scopes) >= 2 || boundary
+	info.NonTrivial = len(scopes) >= 2 || boundary || nInvalid > 0
+	info.ClassIf(nInvalid > 0, "untransformable_metric_in_batch")
+	info.ClassIf(nInvalid > 0 && len(want) > 0, "untransformable_among_valid_metrics")
+	info.ClassIf(nInvalid >= 2, "untransformable_in_two_scopes")
 	info.ClassIf(len(scopes) >= 2, "scopes>=2")
 	info.ClassIf(len(c.Scopes) == 0, "no_scopes")
 	info.ClassIf(emptyScope, "empty_scope")
@@ -877,8 +966,8 @@ type metricExporter interface {
 func TestMetrics(t *testing.T) {
 	vk.Run(t, vk.Spec[MetricCase]{
 		Property: "C13", Check: "otlp_metrics_grpc_http",
-		Rule: "one ResourceMetrics with 0..4 scopes (empty, siblings differing in one component, without metrics) x 0..4 uniquely named metrics over {Gauge, Sum, Histogram, ExponentialHistogram} x {int64, float64} and Summary, both temporalities, monotonic flag, 0..3 points with exemplars, Min/Max set or unset, boundary integers, NaN/Inf, unset/pre-epoch/2262 times; exported by otlpmetricgrpc and otlpmetrichttp (gzip on/off) to loopback collectors; " +
-			"non-trivial = >= 2 distinct scopes, or >= 1 boundary value (time <= epoch or unset or in the last second of int64 nanos, NaN/Inf, |int| > 2^53, count >= 2^63)",
+		Rule: "one ResourceMetrics with 0..4 scopes (empty, siblings differing in one component, without metrics) x 0..4 uniquely named metrics over {Gauge, Sum, Histogram, ExponentialHistogram} x {int64, float64} and Summary, both temporalities, monotonic flag, 0..3 points with exemplars, Min/Max set or unset, boundary integers, NaN/Inf, unset/pre-epoch/2262 times; 1 case in 6 additionally holds 1..2 untransformable metrics (undefined / out-of-range temporality, nil or unknown aggregation) in different scopes, which must be reported as an error by Export and be absent while every valid metric still arrives; exported by otlpmetricgrpc and otlpmetrichttp (gzip on/off) to loopback collectors; " +
+			"non-trivial = >= 2 distinct scopes, or >= 1 boundary value (time <= epoch or unset or in the last second of int64 nanos, NaN/Inf, |int| > 2^53, count >= 2^63), or >= 1 untransformable metric",
 		Quick: 2000, Thorough: 30000,
 		Gen: genMetricCase, Run: runMetrics,
 	})
